@@ -90,6 +90,11 @@ def script_alphabet(full):
         out += [(f"push{a}+push{b}", [[a, 0x5A], [b, 0xA5]]) for a in PUSH_PAIR for b in PUSH_PAIR]
         out += [(f"op{o}", [o]) for o in OPCODES]
         out += [("allops", OPCODES)]
+        # two-command scripts <opcode> <push>: the shapes script classifiers look at (every opcode x hash-sized
+        # pushes, every witness version x every program length 2..40)
+        out += [(f"op{o}+push{n}", [o, [n, 0x3C]]) for o in OPCODES for n in (20, 32)]
+        out += [(f"op{o}+push{n}", [o, [n, 0x3C]]) for o in [0] + list(range(0x51, 0x61)) for n in range(2, 41) if n not in (20, 32)]
+        out += [(f"push{n}+op{o}", [[n, 0x3C], o]) for o in (0x87, 0x88, 0xAC, 0xAE) for n in (20, 32, 33)]
     else:
         out += [(f"push{n}", [[n, 0x5A]]) for n in (0, 1, 74, 75, 76, 77, 255, 256, 520)]
         out += [("op0", [0]), ("op255", [255]), ("op81+push75", [81, [75, 1]])]
